@@ -30,6 +30,7 @@ fn real_main() -> i32 {
                 strict: args.iter().any(|a| a == "--strict"),
             };
             capture::start();
+            if id == "C18" { set_cpu_limit("C18", 20); }
             start_watchdog(arg_val(&args, "--watchdog").and_then(|s| s.parse().ok()).unwrap_or(120));
             let out = run_worker(prop.as_ref(), &cfg);
             capture::real_stdout(&format!("{}\n", out));
@@ -43,7 +44,9 @@ fn real_main() -> i32 {
             let fam = v["family"].as_str().unwrap_or("random16").to_string();
             let choices: Vec<u32> = v["choices"].as_array().map(|a| a.iter().map(|x| x.as_u64().unwrap_or(0) as u32).collect()).unwrap_or_default();
             capture::start();
+            if id == "C18" { set_cpu_limit("C18", 20); }
             start_watchdog(120);
+            note_case(&format!("choices={:?}", choices));
             let mut rep = Report::new();
             let r = if fam == "bytes" || fam == "text" {
                 let bytes: Vec<u8> = v["bytes"].as_array().map(|a| a.iter().map(|x| x.as_u64().unwrap_or(0) as u8).collect()).unwrap_or_default();
